@@ -188,6 +188,21 @@ func c11Case(ctx *genCtx, ts *tape.Set, dir string) *genResult {
 	if profile == "B" {
 		did = world.MakeCollisions(w, ts.Fork("collide"), mt.Intn(3) > 0, mt.Intn(3) > 0)
 	}
+	if mt.Intn(6) == 0 {
+		// conflicts that involve calls typable only in the second pass: on the outer calls, or on the inner
+		// calls (then a rename of the first pass decides the argument type of a call of the second)
+		pl := []string{"sort", "unique"}[mt.Intn(2)]
+		if mt.Bool() {
+			did = append(did, world.AddNestedConflict(w, 7000, pl))
+		} else {
+			did = append(did, world.AddInnerConflict(w, 7000, pl))
+		}
+		res.probe("world.nested_conflict")
+	}
+	if gh := ts.Fork("genheader"); gh.Intn(5) == 0 && len(w.LineDir) >= w.NFiles {
+		w.LineDir[gh.Intn(w.NFiles)] = "// Code generated by mockgen. DO NOT EDIT.\n"
+		res.probe("world.file_with_generated_header")
+	}
 	conflicts, dups := w.Clashes()
 	if len(conflicts) > 0 && mt.Bool() {
 		// a hand-written, called function whose name is the first fresh name -autoname would try,
